@@ -99,6 +99,7 @@ def run(model, rep, tier):
     # cache stores (informational listing)
     for node, path, toks in res.stores:
         rep.note('store %s <- %s (line %d)' % (path, sorted(_tokname(t) for t in toks), node.lineno))
+    _entries_stable(model, rep, mod, ci, res)
     _dominance(model, rep, mod, ci, fn)
     _keyhash(model, rep, mod)
     _memo(model, rep)
@@ -151,6 +152,58 @@ def _env_for(res, node):
             return res.env_at[id(n)]
         n = getattr(n, '_parent', None)
     return None
+
+
+# ---------------------------------------------------------------- cache entries are never edited after they were stored
+def _inplace_writers(model, owner_ci, attr):
+    """methods of ``owner_ci`` (other than constructors/loaders) that modify the array held in ``self.<attr>`` in place --
+    directly (``self.a[...] = / self.a += / self.a.fill``) or through a local alias (``D = self.a ; D *= x``).  Rebinding
+    ``self.a = <new array>`` is not a modification of the old one."""
+    out = []
+    for c in model.mro(owner_ci):
+        for name, fn in c.methods.items():
+            if c.kind(name) != 'instance' or not fn.args.args:
+                continue
+            an = alias.Analyzer(model, c.module, c, {}, depth=0)
+            r = an.run(fn)
+            tok = 'A:self.' + attr
+            for w in r.writes:
+                if tok in w.tokens or ('E:self.' + attr) in w.tokens:
+                    out.append((c, name, w.node, 'through the local %s' % w.name))
+            for node, path, toks in r.stores:
+                base = path.split('[')[0].split('.')
+                if base[:2] == ['self', attr] and (path != 'self.' + attr or isinstance(node, ast.AugAssign)):
+                    # self.a[...] = v ; self.a[...] op= v ; self.a op= v ; self.a.fill(...)   (not: self.a = v)
+                    if name == '__init__' and not isinstance(node, ast.AugAssign):
+                        continue
+                    out.append((c, name, node, 'directly'))
+    return out
+
+
+def _entries_stable(model, rep, mod, ci, res):
+    rep.rule('cache-entry-stable', 'an array stored in a cache is a fresh copy, or the attribute it aliases is only ever rebound, '
+                                   'never modified in place')
+    typed = _typed(model)
+    n = 0
+    for node, path, toks in res.stores:
+        cname = path.split('[')[0][5:] if path.startswith('self.') else None
+        if cname not in CACHES or not path.endswith('[]'):
+            continue
+        n += 1
+        problems = []
+        for t in sorted(toks):
+            if not t.startswith('A:self.'):
+                continue
+            parts = t[2:].split('.')          # self, GFcalc, D    |  self, x
+            owner, attr = (typed.get('.'.join(parts[:-1])), parts[-1]) if len(parts) > 2 else (ci, parts[-1])
+            if owner is None:
+                continue
+            for c, meth, wnode, how in _inplace_writers(model, owner, attr):
+                problems.append('%s.%s line %d modifies self.%s in place (%s)' % (c.name, meth, wnode.lineno, attr, how))
+        rep.ob('cache-entry-stable', mod, node, '%s entry <- %s' % (cname, sorted(_tokname(t) for t in toks if t != 'C')), not problems,
+               '' if not problems else 'the cached entry shares storage with an attribute that is later overwritten in place: every '
+               'entry stored so far changes with the next input (%s)' % '; '.join(problems[:3]), engine='alias', qual='VacancyMediated.Lij')
+    rep.floor('cache stores in Lij', n, 3)
 
 
 # ---------------------------------------------------------------- state dominance / cache coherence
@@ -389,6 +442,8 @@ BREAKERS = [
     (OC, "            self.Lvvvalues[vTK] = L0vv\n", "            self.Lvvvalues[0] = L0vv\n", 'cache-key-coherence'),
     (OC, "        return hash(self.pre.data.tobytes() + self.betaene.data.tobytes() +", "        return hash(np.round(self.pre, 6).data.tobytes() + self.betaene.data.tobytes() +", 'cache-key-exact-hash'),
     (OC, "        # empty dictionaries to store GF values\n        self.clearcache()\n", "", 'cache-invalidation'),
+    ('onsager/GFcalc.py', "        D = np.zeros((self.crys.dim, self.crys.dim))\n        for (n, l, c) in omega_Taylor_D.coefflist:",
+     "        if self.D is None: self.D = np.zeros((self.crys.dim, self.crys.dim))\n        D = self.D\n        D.fill(0.)\n        for (n, l, c) in omega_Taylor_D.coefflist:", 'cache-entry-stable'),
     ('onsager/GFcalc.py', "        self.symmrate = self.SymmRates(pre, betaene, preT, betaeneT)\n", "        if getattr(self, 'lastpre', None) is pre: return\n        self.lastpre = pre\n        self.symmrate = self.SymmRates(pre, betaene, preT, betaeneT)\n",
      'memo-key-complete'),
 ]
